@@ -151,6 +151,8 @@ def build_doc(plan) -> dict:
                 overrides.append(render_parameter(q, dialect))
         path_item["get"] = {"parameters": overrides, "responses": {"200": {"description": "ok"}}}
     path_item[plan["method"]] = op
+    for m in plan.get("extra_methods", []):  # other documented methods of the same path item
+        path_item.setdefault(m, {"responses": {"200": {"description": "ok"}}})
     sec = plan.get("security")
     if dialect == "2.0":
         doc = {"swagger": "2.0", "info": {"title": "t", "version": "1"}, "paths": {plan["path"]: path_item}, "definitions": copy.deepcopy(plan["schemas"]), "parameters": shared_params}
@@ -158,6 +160,9 @@ def build_doc(plan) -> dict:
             scheme = {"type": "basic"} if sec["kind"] == "basic" else {"type": "apiKey", "in": sec["kind"].split("-")[1], "name": sec["name"]}
             doc["securityDefinitions"] = {"s": scheme}
             op["security"] = [{"s": []}]
+        if plan.get("path_item_ref"):
+            doc["x-path-items"] = {"I": path_item}
+            doc["paths"][plan["path"]] = {"$ref": "#/x-path-items/I"}
         return doc
     doc = {
         "openapi": {"3.0": "3.0.2", "3.1": "3.1.0"}[dialect],
@@ -172,6 +177,9 @@ def build_doc(plan) -> dict:
             scheme = {"type": "apiKey", "in": sec["kind"].split("-")[1], "name": sec["name"]}
         doc["components"]["securitySchemes"] = {"s": scheme}
         op["security"] = [{"s": []}]
+    if plan.get("path_item_ref"):  # the path item lives elsewhere in the document
+        doc["x-path-items"] = {"I": path_item}
+        doc["paths"][plan["path"]] = {"$ref": "#/x-path-items/I"}
     return doc
 
 
